@@ -184,6 +184,9 @@ pub enum MetaSpec {
     Json(u64, u8),
     /// a JSON text of `chars` characters, each `bytes_per_char` bytes long in UTF-8 (1 = ASCII, 2 = 'é', 3 = '€')
     Text(u64, u8, u8),
+    /// auxiliary data without content: 0 = metadata map without labels, 1 = an empty `AuxiliaryData`,
+    /// 2 = auxiliary data whose only content is an empty native-script list
+    Empty(u8),
     /// auxiliary data with scripts (forces the tag-259 form)
     AuxScripts { native: Vec<ScriptId>, plutus: Vec<ScriptId>, prefer_alonzo: bool },
 }
